@@ -356,11 +356,13 @@ def parse_func(lines):
         if not s or s.startswith(';'): continue
         m = re.match(r'^([-a-zA-Z$._0-9]+|"[^"]*"):', ln)
         if m:
+            if len(f.blocks) == 1 and not cur[1]:
+                cur[0] = '%' + m.group(1); continue
             cur = ['%' + m.group(1), []]; f.blocks.append(cur); continue
         if s.startswith('switch'):
-            while not re.search(r'\](, !llvm\.loop ![0-9]+)?$', s):
+            while not re.search(r'\](, ![a-zA-Z_.0-9]+ ![0-9]+)*$', s):
                 s += ' ' + lines[k].strip(); k += 1
-            s = re.sub(r', !llvm\.loop ![0-9]+$', '', s)
+            s = re.sub(r'(, ![a-zA-Z_.0-9]+ ![0-9]+)+$', '', s)
         cur[1].append(s)
     M.funcs[f.name] = f
 
